@@ -71,6 +71,9 @@ func c02(c *core.Ctx) {
 		c02InprocRecheck(c)
 		c02HttpEOF(c)
 		c02TrailerIffNegative(c)
+		if singleResponseProbes(c) < 2 {
+			c.Missing("client stream types with a single-response probe (in-process and HTTP)")
+		}
 		c.EndRule()
 	}
 	// ---------------------------------------------------------------- R2
